@@ -141,9 +141,11 @@ class TableEngine:
     def _val(self, rng):
         self.counter += 1
         kind = rng.weighted([("int", 6), ("str", 3), ("none", 1), ("bool", 0.3), ("multiline", 0.4 if self.prop == "C17" else 0),
-                             ("bigint", 0.4 if self.prop == "C17" else 0)], "vkind")
+                             ("bigint", 0.4 if self.prop == "C17" else 0), ("float", 0.7)], "vkind")
         if kind == "int":
             return self.counter
+        if kind == "float":
+            return self.counter + 0.1  # (not exactly representable in binary; its shortest repr is what a cell must show)
         if kind == "bigint":
             return 2**53 + 1 + 2 * self.counter  # (an identifier / barcode: not representable as a double)
         if kind == "str":
@@ -354,6 +356,8 @@ class TableEngine:
             plan["area"]["form"] = "s"
         plan["col"] = rng.randint(0, max(0, W - 1), "ocol")
         plan["row"] = rng.randint(0, max(0, H - 1), "orow")
+        if rng.chance(0.3, "oneg"):
+            plan["neg"] = True
         return plan
 
     def gen_init(self, rng):
@@ -602,6 +606,8 @@ class TableEngine:
                 edits.append({"e": "rep", "k": self._rep(rng)})
             if rng.chance(0.6, "cv"):
                 edits.append({"e": "set_value", "v": self._val(rng)})
+                if rng.chance(0.4, "cvattr"):
+                    edits[-1]["via"] = "attr"
             if rng.chance(0.3, "cs"):
                 edits.append({"e": "style", "s": rng.choice(["ce1", "ce2"], "cstyle")})
             op["edits"] = edits
